@@ -63,6 +63,11 @@ type vC14PvSim struct {
 	sendLt   time.Duration
 	grace    time.Duration
 	failFor  time.Duration // the router fails until this much time has passed (real-time twin)
+	// real-time twin only (a bubble would stall: the callers hold mutexes Close waits on): a cancelled router call
+	// takes abortLinger of real time to unwind; with holdFirst the first router call - the connectivity probe the
+	// checker starts on its own goroutine - does not answer before its context is cancelled
+	abortLinger time.Duration
+	holdFirst   bool
 	probeOK  bool          // the connectivity probe (lookup of the own id) succeeds even while failFor lasts
 	selfKey  string
 	born     time.Time
@@ -89,10 +94,18 @@ func vC14PvWait(ctx context.Context, d time.Duration) error {
 func (s *vC14PvSim) GetClosestPeers(ctx context.Context, k string) ([]peer.ID, error) {
 	s.inflight.Add(1)
 	defer s.inflight.Add(-1)
-	s.nGCP.Add(1)
+	nth := s.nGCP.Add(1)
 	s.tick("gcp", "")
 	defer s.tick("gcpend", "")
-	if err := vC14PvWait(ctx, s.routerLt); err != nil { // returns at once when cancelled: callers may hold a mutex Close waits on
+	if s.holdFirst && nth == 1 {
+		<-ctx.Done()
+		time.Sleep(s.abortLinger)
+		return nil, ctx.Err()
+	}
+	if err := vC14PvWait(ctx, s.routerLt); err != nil { // bubble: returns at once when cancelled (callers may hold a mutex Close waits on)
+		if s.abortLinger > 0 {
+			time.Sleep(s.abortLinger)
+		}
 		return nil, err
 	}
 	if s.failFor > 0 && time.Since(s.born) < s.failFor && !(s.probeOK && k == s.selfKey) {
@@ -501,8 +514,8 @@ func TestVerif_C14_provider(t *testing.T) {
 
 func TestVerifRace_C14_provider_early(t *testing.T) {
 	vh.Run(t, vh.Spec{Prop: "C14", Unit: "provider_early", Quick: 24, Thorough: 600, CostMs: 60, WallS: 240,
-		Rule:    "real time under -race: SweepingProvider over the simulated swarm (router 0-4 ms, failing for the first 0-20 ms in half of the cases so that the measurement retries, sends 0-3 ms), keystore internal / external plain / external resettable, StartProviding of 1-20 keys right after construction and again concurrently with Close; Close after a PRNG 0-30 ms; verdict = Close returned and no goroutine started by the provider is left (polled; the only time bound is the wall-clock watchdog = inconclusive), second Close returns; non-trivial = Close began before the provider was online or with calls in flight",
-		Clauses: []string{"close-returns", "no-goroutine-after-close", "close-again-returns"}},
+		Rule:    "real time under -race: SweepingProvider over the simulated swarm (router 0-4 ms, failing for the first 0-20 ms in half of the cases so that the measurement retries, sends 0-3 ms), keystore internal / external plain / external resettable, StartProviding of 1-20 keys right after construction and again concurrently with Close; cancelled router calls take 2 ms (every third case: the held initial connectivity probe 25 ms) of real time to unwind; Close after a PRNG 0-30 ms; verdict = Close returned, no router/sender call is executing at the instant it returns, and no goroutine started by the provider is left (polled; the only time bound is the wall-clock watchdog = inconclusive), second Close returns; non-trivial = Close began before the provider was online or with calls in flight",
+		Clauses: []string{"close-returns", "no-call-in-flight-when-close-returns", "no-goroutine-after-close", "close-again-returns"}},
 		func(c *vh.Case) {
 			r := c.R
 			n := 25 + r.Intn(60)
@@ -535,6 +548,14 @@ func TestVerifRace_C14_provider_early(t *testing.T) {
 				sim.probeOK, sim.selfKey = true, string(peer.ID(selfH))
 				sim.failFor = closeAfter + 40*time.Millisecond
 			}
+			// cancelled router calls take real time to unwind: a Close that returns without waiting for the goroutine
+			// inside such a call (connectivity probe, prefix-length measurement, provide worker) is caught with the
+			// call still executing. Every third case holds the initial connectivity probe until Close cancels it.
+			sim.abortLinger = 2 * time.Millisecond
+			if c.Idx%3 == 1 {
+				sim.holdFirst, sim.abortLinger = true, 25*time.Millisecond
+			}
+			c.Set("probe_held_until_close", sim.holdFirst)
 			c.Set("router_fails_for_us", sim.failFor.Microseconds())
 			c.Set("probe_answered_while_failing", sim.probeOK)
 			addrs := []ma.Multiaddr{ma.StringCast("/ip4/9.9.9.9/tcp/4001")}
@@ -597,6 +618,11 @@ func TestVerifRace_C14_provider_early(t *testing.T) {
 				}
 				time.Sleep(2 * time.Millisecond)
 			}
+			// Sampled at the instant Close returned. Every router / sender call is made by a goroutine the provider
+			// started (connectivity checker, measurement, workers - never on the caller's goroutine of an API call),
+			// and a goroutine inside such a call has certainly not exited: sound without any time bound.
+			inflightAtReturn := sim.inflight.Load()
+			c.Check(inflightAtReturn == 0, "no-call-in-flight-when-close-returns", "Close returned while %d router/sender calls made by goroutines of the provider were still executing (Close %v after construction, online=%v, probe held=%v): Close did not wait for them\n%s", inflightAtReturn, closeAfter, online, sim.holdFirst, vc14.Dump(vc14.Owned(), 6))
 			c.Obs("router_calls_started_after_close", int(sim.nGCP.Load()-gcpAtClose))
 			c.Clause("close-returns")
 			if cerr != nil {
